@@ -109,3 +109,14 @@ def gen_list(rng, n=None, tame=True, allow_ew=True, dup_rate=0.4, family=None):
     if family is True or (family is None and rng.random() < 0.35):
         out += multiword_family(rng)
     return out
+
+
+def omen_density_corpus():
+    """a few very common passwords and a structured tail: the density of the OMEN levels (passwords of the level / keyspace of the
+    level) does not fall monotonically with the level number, so `pcfg_omen_prob.txt` is not in level order when it is sorted"""
+    names = ['anna', 'maria', 'james', 'robert', 'linda', 'michael', 'david', 'sarah', 'laura', 'peter', 'kevin', 'susan']
+    tail = []
+    for position, name in enumerate(names):
+        for num in range(0, 100, 7):
+            tail += [name + '%02d' % num] * (1 + (position * num) % 5)
+    return ['123456'] * 50 + ['password'] * 30 + ['qwerty'] * 20 + tail
